@@ -152,7 +152,12 @@ Inductive hrule :=
 | HPlain (resw : mask)                       (* Value.Set(request.<R>, WithUpdateMask(request.update_mask)) *)
 | HUnless (flag : string) (resw : mask)      (* the same, when the request field [flag] is not populated *)
 | HCount                                     (* countpb.MemoryDevice: delta adds the stored counts (int32) *)
-| HFan.                                      (* fanspeedpb: validateUpdate, Set without mask, DeriveValues *)
+| HFan                                       (* fanspeedpb: validateUpdate, Set without mask, DeriveValues *)
+| HKeyed (key : string) (empty_invalid : bool)    (* hailpb / vendingpb stock: Collection.Update(request.<R>.<key>, request.<R>, mask) *)
+| HEmergency                                 (* emergencypb: masked write, then the server clock into level_change_time *)
+| HPublication                               (* publicationpb: id, version precondition, masked write, computed properties *)
+| HElectric                                  (* electricpb active mode: the mode with the request's id out of the device's modes *)
+| HLight.                              (* publicationpb: id, version precondition, masked write, computed properties *)
 
 Definition p1 (f : string) : path := [f].
 
@@ -165,7 +170,13 @@ Definition hand_table : list (string * hrule) := [
   ("countpb.MemoryDevice/CountApi.Count", HCount);
   ("speakerpb.MemoryDevice/SpeakerApi.Volume", HUnless "delta" None);
   ("modepb.ModelServer/ModeApi.ModeValues", HUnless "relative" None);
-  ("fanspeedpb.ModelServer/FanSpeedApi.FanSpeed", HFan)
+  ("fanspeedpb.ModelServer/FanSpeedApi.FanSpeed", HFan);
+  ("hailpb.ModelServer/HailApi.Hail", HKeyed "id" true);
+  ("vendingpb.ModelServer/VendingApi.Stock", HKeyed "consumable" false);
+  ("emergencypb.MemoryDevice/EmergencyApi.Emergency", HEmergency);
+  ("publicationpb.ModelServer/PublicationApi.Publication", HPublication);
+  ("electricpb.ModelServer/ElectricApi.ActiveMode", HElectric);
+  ("lightpb.ModelServer/LightApi.Brightness", HLight)
 ].
 
 Definition tint (f : string) (v : option value) : Z :=
@@ -222,7 +233,98 @@ Fixpoint has_negzero (v : value) {struct v} : bool :=
                   match l with [] => false | (_, x) :: r => has_negzero x || go r end) kv
   end.
 
-Definition hand_rule (ty : string) (h : hrule) (base : option value) (q : ureq) : option (value + Z) :=
+(* ---- rules of the servers that keep the resource in a Collection under a key taken from the written
+   message (hail: id, vending stock: consumable, publication: id).  Collection.Update: Validate(mask) first,
+   then the item is looked up (NotFound), then the merge into a clone.  The harness creates ONE item; the
+   register of the triple is that item, so any other key is NotFound(5). ---- *)
+Definition vstr (f : string) (v : value) : string :=
+  match vget f v with Some (VS (SStr s)) => s | _ => "" end.
+Definition venum (f : string) (v : value) : Z :=
+  match vget f v with Some (VS (SEnum z)) => z | _ => 0%Z end.
+
+Definition keyed_write (ty key : string) (um : mask) (b res : value) : option (value + Z) :=
+  match plain_write ty None um (Some b) res with
+  | Some (inl v) => if String.eqb (vstr key res) (vstr key b) then Some (inl v) else Some (inr 5%Z)
+  | r => r
+  end.
+
+(* a field the server fills from ITS clock (or a hash of the stored bytes): taken from the observed response
+   -- the one place where a hand rule looks at the observation; absent there = a marker no response equals *)
+Definition minted (f : string) (obs : value + Z) (v : value) : value :=
+  match obs with
+  | inl w => match vget f w with Some t => vset f t v | None => vset f (VS (SStr "<not minted>")) v end
+  | inr _ => v
+  end.
+
+(* a Timestamp field the server fills from its clock: the observed one, provided it lies inside the wall-clock
+   bracket of the call that the harness measured ("@t0" / "@t1" next to the request, unix ns); a stale, zero
+   or invented time does not *)
+Definition ts_nanos (t : value) : Z := (tint "seconds" (Some t) * 1000000000 + tint "nanos" (Some t))%Z.
+Definition in_bracket (q : ureq) (t : value) : bool :=
+  match vget "@t0" (u_req q), vget "@t1" (u_req q) with
+  | Some (VS (SInt lo)), Some (VS (SInt hi)) => ((lo <=? ts_nanos t) && (ts_nanos t <=? hi))%Z
+  | _, _ => true
+  end.
+Definition minted_time (f : string) (q : ureq) (obs : value + Z) (v : value) : value :=
+  match obs with
+  | inl w => match vget f w with
+             | Some t => if in_bracket q t then vset f t v else vset f (VS (SStr "<not the time of the call>")) v
+             | None => vset f (VS (SStr "<not minted>")) v
+             end
+  | inr _ => v
+  end.
+
+(* emergencypb.MemoryDevice.UpdateEmergency, InterceptAfter: "use server time if the level changed but the
+   change time didn't".  Until the repair in /repo the handler compared the *timestamppb.Timestamp POINTERS of
+   the stored message and of its merged clone, which are equal only when both are nil: a level change written
+   under a mask (or with the old time repeated) kept the stale change time ([emergency_after_v0]).  Now the
+   times are compared by value (proto.Equal). *)
+Definition opt_value_eqb (a b : option value) : bool := option_eqb value_eqb a b.
+Definition emergency_after (q : ureq) (obs : value + Z) (b v : value) : value :=
+  if negb (venum "level" v =? venum "level" b)%Z && opt_value_eqb (vget "level_change_time" b) (vget "level_change_time" v)
+  then minted_time "level_change_time" q obs v else v.
+Definition emergency_after_v0 (q : ureq) (obs : value + Z) (b v : value) : value :=
+  if negb (venum "level" v =? venum "level" b)%Z && negb (vhas "level_change_time" b) && negb (vhas "level_change_time" v)
+  then minted_time "level_change_time" q obs v else v.
+
+(* publicationpb.Model.withComputedProperties (WithResetReceipt, WithNewPublishTime, WithNewVersion) *)
+Definition publication_after (q : ureq) (obs : value + Z) (v : value) : value :=
+  let v1 := match vget "audience" v with
+            | Some a => vset "audience" (vset "receipt" (VS (SEnum 1)) (vclear "receipt_rejected_reason" (vclear "receipt_time" a))) v
+            | None => v
+            end in
+  minted "version" obs (minted_time "publish_time" q obs v1).
+
+(* electricpb.ModelServer.UpdateActiveMode: only the id of the written message counts; the mode stored
+   under it in the device's mode collection is Set WHOLE (no mask: it replaces the active mode), and the
+   start time is the server clock when the id changes.  The device's modes are data: the two the harness
+   adds to every electric device (harness/c14/c14.go hints, AddMode m1 / m2 -- keep in step). *)
+Definition electric_mode (id : string) : value :=
+  VM [("id", VS (SStr id)); ("title", VS (SStr ("mode " ++ id)));
+      ("segments", VL [VM [("magnitude", VS (SF32 1065353216))]])].
+Definition electric_modes : list (string * value) := [("m1", electric_mode "m1"); ("m2", electric_mode "m2")].
+
+(* lightpb.Model.UpdateBrightness: setLevelFromPreset looks the written preset's name up in the model's
+   preset table (constructor options WithPreset); a hit overwrites level_percent and preset of the written
+   message and adds "level_percent" to a non-nil update mask (WithMoreUpdatePaths); a miss writes the
+   message as it is.  The table is data: the harness constructs every light model with the first n of
+   (dim 20 %, bright 100 %) and tells n in the pseudo-field "@presets" next to the request (ctoropts.go). *)
+Definition light_presets : list (string * (Z * string)) :=
+  [("dim", (1101004800%Z, "Dim")); ("bright", (1120403456%Z, "Bright"))].
+Definition light_prepare (n : nat) (um : mask) (res : value) : value * mask :=
+  match vget "preset" res with
+  | Some pv =>
+      match alookup (vstr "name" pv) (firstn n light_presets) with
+      | Some (lvl, title) =>
+          (vset "preset" (VM [("name", VS (SStr (vstr "name" pv))); ("title", VS (SStr title))])
+             (vset "level_percent" (VS (SF32 lvl)) res),
+           option_map (fun ps => (ps ++ [p1 "level_percent"])%list) um)
+      | None => (res, um)
+      end
+  | None => (res, um)
+  end.
+
+Definition hand_rule (ty : string) (h : hrule) (base : option value) (q : ureq) (obs : value + Z) : option (value + Z) :=
   match u_res q with
   | None => None
   | Some res =>
@@ -251,6 +353,53 @@ Definition hand_rule (ty : string) (h : hrule) (base : option value) (q : ureq) 
               | _, _ => None
               end
           end
+      | HKeyed key ec =>
+          if String.eqb (vstr key res) "" then Some (inr (if ec then 3 else 5)%Z) else
+          match base with
+          | None => None
+          | Some b => keyed_write ty key (u_um q) b res
+          end
+      | HEmergency =>
+          match base with
+          | None => None
+          | Some b =>
+              match plain_write ty None (u_um q) base res with
+              | Some (inl v) => Some (inl (emergency_after q obs b v))
+              | r => r
+              end
+          end
+      | HPublication =>
+          if String.eqb (vstr "id" res) "" then Some (inr 3%Z) else
+          match base with
+          | None => None
+          | Some b =>
+              match keyed_write ty "id" (u_um q) b res with
+              | Some (inl v) =>
+                  let want := vstr "version" (u_req q) in
+                  if negb (String.eqb want "") && negb (String.eqb (vstr "version" b) want) then Some (inr 9%Z)
+                  else Some (inl (publication_after q obs v))
+              | r => r
+              end
+          end
+      | HElectric =>
+          let id := vstr "id" res in
+          if String.eqb id "" then Some (inr 3%Z) else
+          match alookup id electric_modes, base with
+          | None, _ => Some (inr 5%Z)
+          | Some mode, Some b =>
+              match plain_write ty None None base mode with
+              | Some (inl v) => Some (inl (if String.eqb id (vstr "id" b) then v else minted_time "start_time" q obs v))
+              | r => r
+              end
+          | Some _, None => None
+          end
+      | HLight =>
+          match vget "@presets" (u_req q) with
+          | Some (VS (SInt n)) =>
+              let '(res1, um1) := light_prepare (Z.to_nat n) (u_um q) res in
+              plain_write ty None um1 base res1
+          | _ => None
+          end
       end
   end.
 
@@ -272,11 +421,20 @@ Definition snap (v : value) (observed : value + Z) : value :=
   | inr _ => v
   end.
 
+(* the part of the rule that is written out: what the hand rule of [server] answers to the n-th Update
+   of the history on the stored value [base]; None = no hand rule / request not covered *)
+Definition hand_part (server ty : string) (reqs : list ureq) (rs : list (value + Z)) : option value -> nat -> option (value + Z) :=
+  fun base n =>
+    match alookup server hand_table, nth_error reqs n with
+    | Some h, Some q => hand_rule ty h base q (oracle_rule rs base n)
+    | _, _ => None
+    end.
+
 Definition hybrid_rule (server ty : string) (reqs : list ureq) (rs : list (value + Z)) : option value -> nat -> value + Z :=
   fun base n =>
     match alookup server hand_table, nth_error reqs n with
     | Some h, Some q =>
-        match hand_rule ty h base q with
+        match hand_rule ty h base q (oracle_rule rs base n) with
         | Some (inl v) => inl (snap v (oracle_rule rs base n))
         | Some (inr c) => inr c
         | None => oracle_rule rs base n
@@ -287,7 +445,7 @@ Definition hybrid_rule (server ty : string) (reqs : list ureq) (rs : list (value
 (* how many Updates of a case the hand rule decides (for the statistics only) *)
 Definition hand_covered (server ty : string) (reqs : list ureq) : nat :=
   match alookup server hand_table with
-  | Some h => List.length (filter (fun q => match hand_rule ty h None q with Some _ => true | None => false end) reqs)
+  | Some h => List.length (filter (fun q => match hand_rule ty h None q (inr 2%Z) with Some _ => true | None => false end) reqs)
   | None => O
   end.
 
@@ -356,6 +514,38 @@ Definition ok_core (server : string) (init : value) (evs : list (tev value rmask
   end.
 
 Definition C14_ok (c : c14case) : bool := ok_core (c_server c) (c_init c) (c_evs c) (c_streams c) (c_eqt c).
+
+(* ---- the business rule evaluated DIRECTLY on the observation (no model run): the register is read off
+   the trace as in [gets_ok] (initial full Get, then the last successful Update response); every Update
+   under a registered name that the hand rule covers must be answered as the rule says on that register:
+   the rule's status, or the rule's value up to the order of fields.  A response that is coherent with
+   every later Get and stream but is not what the handler's rule computes fails here. ---- *)
+Definition conforms_to (expected : option (value + Z)) (resp : value + Z) : bool :=
+  match expected, resp with
+  | None, _ => true
+  | Some (inl v), inl w => value_equiv v w || value_eqb v w
+  | Some (inr c), inr c' => Z.eqb c c'
+  | _, _ => false
+  end.
+
+Fixpoint rules_walk (hp : option value -> nat -> option (value + Z)) (cur : option value) (n : nat)
+         (evs : list (tev value rmask)) : bool :=
+  match evs with
+  | [] => true
+  | TUpdate name resp :: r =>
+      if t_routed dev_names name then
+        conforms_to (hp cur n) resp &&
+        rules_walk hp (match resp with inl v => Some v | inr _ => cur end) (S n) r
+      else rules_walk hp cur (S n) r
+  | _ :: r => rules_walk hp cur n r
+  end.
+
+Definition rules_core (server : string) (init : value) (evs : list (tev value rmask)) (reqs : list ureq) : bool :=
+  match info_of server with
+  | None => false
+  | Some info => rules_walk (hand_part server (sv_type info) reqs (update_resps evs)) (Some init) 0 evs
+  end.
+Definition C14_rules_ok (c : c14case) : bool := rules_core (c_server c) (c_init c) (c_evs c) (c_reqs c).
 
 Definition mask_ok (k : option rmask) : bool :=
   match k with None => true | Some ps => segs_ok ps && forallb (fun p => match p with [] => false | _ => true end) ps end.
@@ -457,4 +647,4 @@ Definition judge (c : c14case) : Z :=
     if (if C14_guard c then C14_ok c else true) then 0
     else if has_multi (parts_of c) && relaxed_ok c then 103
     else 3
-  else verdict (agrees c) (if C14_guard c then C14_ok c else true) None.
+  else verdict (agrees c) ((if C14_guard c then C14_ok c else true) && C14_rules_ok c) None.
